@@ -1049,11 +1049,20 @@ def _generate_structure_virtual_field_methods(enclosing_type_name, field_ir, ir)
             ir,
             field_reader=_VirtualViewFieldRenderer(),
         ).rendered
+        # The text reader has to match the field's type, like the text writer
+        # chosen below: an alias with a [requires] is a "transform" even when it
+        # is an enum or a boolean.
+        read_from_text_stream_function = {
+            "integer": "ReadIntegerFromTextStream",
+            "boolean": "ReadBooleanFromTextStream",
+            "enumeration": "ReadEnumViewFromTextStream",
+        }[field_ir.read_transform.type.which_type]
         write_methods = code_template.format_template(
             _TEMPLATES.structure_single_virtual_field_write_methods,
             logical_type=logical_type,
             destination=destination,
             transform=transform,
+            read_from_text_stream_function=read_from_text_stream_function,
         )
     else:
         write_methods = ""
